@@ -172,6 +172,24 @@ fn check_doc(pins: &[Pin], tests: &[TestDesc], st: &mut Stats) -> Option<(String
                 let f2 = f.clone();
                 let src = t.source.clone();
                 let sigs = f.signals.clone();
+                // loading is repeatable: the same file object gives the same test again, also after
+                // other tests have been loaded from it
+                {
+                    let f6 = f.clone();
+                    let n = tests.len();
+                    match guard(DEFAULT_BUDGET, move || {
+                        let first = f6.load_test(i).map_err(|e| format!("{e}"));
+                        for j in 0..n {
+                            let _ = f6.load_test((i + j + 1) % n);
+                        }
+                        let again = f6.load_test(i).map_err(|e| format!("{e}"));
+                        first == again
+                    }) {
+                        Ok(true) => st.witness("test_loaded_twice_from_one_file_object"),
+                        Ok(false) => return Some(("load_test is not repeatable".into(), format!("load_test({i}) gives a different result the second time (after the other tests were loaded from the same file object)"))),
+                        Err(c) => return Some(("load_test panics".into(), format!("load_test({i}) panicked: {c:?}"))),
+                    }
+                }
                 let r = guard(DEFAULT_BUDGET, move || {
                     let a = f2.load_test(i);
                     let b: Result<dtr::TestCase, String> = match dtr::ParsedTestCase::from_str(&src) {
@@ -415,7 +433,7 @@ pub fn run(tier: Tier, seed: u64) -> i32 {
             "the name given to a Testcase without Label entry is not specified".into(),
             "dig::File::open (file system) is not explored; parse is".into(),
         ],
-        required_witnesses: vec!["document_with_300_pins_and_40_tests", "loadable_document", "unloadable_document_rejected", "bidirectional_signal_recovered", "load_test_ok", "load_test_err_same_class", "duplicate_test_label", "corrupted_document_still_loads", "corrupted_document_rejected", "lookup_by_a_name_that_is_nearly_a_label"],
+        required_witnesses: vec!["document_with_300_pins_and_40_tests", "loadable_document", "unloadable_document_rejected", "bidirectional_signal_recovered", "load_test_ok", "load_test_err_same_class", "duplicate_test_label", "corrupted_document_still_loads", "corrupted_document_rejected", "lookup_by_a_name_that_is_nearly_a_label", "test_loaded_twice_from_one_file_object"],
         exhaustive_note: "all menu sequences within the bounds; all listed corruptions".into(),
         e1: false,
     };
